@@ -241,7 +241,17 @@ func (v *verifCapture) next(c verifMirrorCase, deadline time.Time, stop <-chan s
 
 var verifNoRaw = false
 
-func verifRunMirror(cp *verifCapture, c verifMirrorCase) (string, string) {
+// a capture that sees nothing (and no panic) is retried: a loaded machine must not raise an alarm
+func verifRunMirror(cp *verifCapture, c verifMirrorCase) (o string, v string) {
+	for try := 0; try < 3; try++ {
+		if o, v = verifRunMirrorOnce(cp, c); o != "none" {
+			break
+		}
+	}
+	return o, v
+}
+
+func verifRunMirrorOnce(cp *verifCapture, c verifMirrorCase) (string, string) {
 	helper, hp := verifHelperHeader(c)
 
 	if c.proto == "ipfix" {
@@ -364,7 +374,7 @@ func verifRunMirror(cp *verifCapture, c verifMirrorCase) (string, string) {
 		}
 		if strings.Contains(stopped, "not permitted") {
 			verifNoRaw = true
-			return verifRunMirror(cp, c)
+			return verifRunMirrorOnce(cp, c)
 		}
 		return "none", "fail:no packet captured (" + stopped + ")"
 	}
